@@ -9,6 +9,7 @@ import (
 	"github.com/freeconf/yang/fc"
 	"github.com/freeconf/yang/meta"
 	"github.com/freeconf/yang/node"
+	"github.com/freeconf/yang/nodeutil"
 
 	"yvh/core"
 	"yvh/emit"
@@ -19,6 +20,10 @@ import (
 func init() { Registry["C03"] = C03 }
 
 var strategyNames = []string{"Upsert", "Insert", "Update"}
+
+// altSource: when set (C03 only) a third of the XFrom calls read the source through the library's
+// JSON reader (nodeutil.ReadJSON of the same content) instead of the reference store
+var altSource *gen.Rng
 
 func errClass(err error) string {
 	switch {
@@ -200,6 +205,7 @@ func runEdit(ctx *core.Ctx, m *meta.Module, root *tree.SNode, yang string, src, 
 	}
 	var srcTerm, tgtTerm, srcDesc, tgtDesc string
 	var srcNode, tgtNode node.Node
+	srcKind := "reference store"
 	switch e.kind {
 	case "list":
 		srcTerm = emit.App("DList", listRowsTerm(e.s, e.src.Lists[e.s.Name]))
@@ -211,6 +217,13 @@ func runEdit(ctx *core.Ctx, m *meta.Module, root *tree.SNode, yang string, src, 
 		srcTerm, tgtTerm = e.src.ContentTerm(e.s), e.tgt.ContentTerm(e.s)
 		srcNode, tgtNode = e.src.Node(e.s, nil, e.path), e.tgt.Node(e.s, nil, e.path)
 		srcDesc, tgtDesc = e.src.Desc(e.s), e.tgt.Desc(e.s)
+		if altSource != nil && fromDir && altSource.Chance(1, 3) {
+			js := e.src.JSON(e.s)
+			if n, jerr := nodeutil.ReadJSON(js); jerr == nil {
+				srcNode = n
+				srcKind = "nodeutil.ReadJSON"
+			}
+		}
 	}
 	callErr, panicked := applyEdit(st, fromDir, srcSel, tgtSel, srcNode, tgtNode)
 	obs := ""
@@ -235,7 +248,7 @@ func runEdit(ctx *core.Ctx, m *meta.Module, root *tree.SNode, yang string, src, 
 		dir = "From"
 	}
 	desc := map[string]interface{}{"yang": yang, "entry": e.kind, "path": e.path, "call": strategyNames[st] + dir,
-		"source": srcDesc, "target_before": tgtDesc, "observed": obsDesc}
+		"source": srcDesc, "source_node": srcKind, "target_before": tgtDesc, "observed": obsDesc}
 	var term string
 	if e.kind == "list" {
 		term = emit.App("CEditList", e.s.Term(), strategyNames[st], srcTerm, tgtTerm, obs)
@@ -244,6 +257,7 @@ func runEdit(ctx *core.Ctx, m *meta.Module, root *tree.SNode, yang string, src, 
 	}
 	ctx.Add(term, desc, e.src.Size() > 0)
 	ctx.Count("entry:" + e.kind)
+	ctx.Count("source:" + srcKind)
 	ctx.Count("call:" + strategyNames[st] + dir)
 	if callErr != nil {
 		ctx.Count("result:" + errClass(callErr))
@@ -277,6 +291,8 @@ func C03(ctx *core.Ctx) error {
 	ctx.Rule = "scenario = generated choice-free schema (containers, lists with 1-2 keys of 6 key types, leaves of 12 types, leaf-lists, defaults) x source/target sub-sampled from one universe tree (overlapping keys, empty trees) x strategy x From/Into x entry point (root, container, list, list entry); distinct by SHA-256 of the case term; non-trivial = the source holds data"
 	r := gen.New(ctx.Seed)
 	opts := tree.GenOpts{MaxDepth: 3, MaxKids: 4, Lists: true, Defaults: true, LeafLists: true}
+	altSource = r.Fork(77)
+	defer func() { altSource = nil }()
 	return editScenarios(ctx, r, ctx.Scale(60, 1500), opts, []int{0, 0, 1, 2})
 }
 
